@@ -193,8 +193,10 @@ def run_hypothesis_worker(args):
 
     test = given(mod.strategy(profile))(body)
     test = hseed(h64(seed, prop, widx, profile) & 0xFFFFFFFF)(test)
+    # VERIF_NO_SHRINK=1 (development aid for mutant sweeps): report the first failure unshrunk
+    phases = [Phase.generate] if os.environ.get("VERIF_NO_SHRINK") else [Phase.generate, Phase.shrink]
     test = settings(max_examples=n_examples, database=None, deadline=None, derandomize=False,
-                    suppress_health_check=list(HealthCheck), phases=[Phase.generate, Phase.shrink],
+                    suppress_health_check=list(HealthCheck), phases=phases,
                     verbosity=Verbosity.quiet, report_multiple_bugs=False)(test)
     try:
         test()
